@@ -64,6 +64,10 @@ def map_math_functions_by_name(i, func, pars, allowed_nonsmoothness="none"):
                              "to return sign")
     elif func == make_f("copysign") and len(pars) == 2:
         if allowed_nonsmoothness == "discontinuous":
+            if i == 0:
+                # copysign(u, v) == fabs(u)*sign(v)
+                from pymbolic.functions import sign
+                return sign(pars[0]) * sign(pars[1])
             return 0
         else:
             raise ValueError("sign is discontinuous"
